@@ -1,11 +1,15 @@
-(* C11: set_crc_type on every u8 code, against the compiled crate's complete table *)
+(* C11: Bundle::set_crc(k) followed by Bundle::to_cbor for every u8 code, against the compiled crate's complete table *)
 From Coq Require Import Strings.String Strings.Ascii.
-From BP7 Require Import Base.Prelude Gen.Consts Gen.Tbl_CRCCODE Proofs.TieBase Model.Types Model.Hex.
+From BP7 Require Import Base.Prelude Gen.Consts Gen.Tbl_CRCCODE Proofs.TieBase Model.Types Model.Encode Model.Ops Model.Hex.
 
 (* CRCCODE: row k = type code read back, has_crc, number of CRC bytes after set_crc_type(k) *)
-Definition crc_answer (k : N) : list byte :=
-  let c := crc_of_type k in
-  hex2 (crc_code c) ++ [ch (has_crc c); digit (match crc_bytes c with Some b => Nlen b | None => 0 end)].
+(* CRCCODE: row k = hex of Bundle::to_cbor after Bundle::set_crc(k) on the bundle [hop count (32,0) #2; payload "x" #1], padded with '.' to
+   200 characters *)
+Definition crc_bundle : bundle :=
+  mkbundle (mkprimary 7 0 CrcNo (Dtn 1 [x2f; x2f; x64; x2f]) (Dtn 1 [x2f; x2f; x73; x2f]) eid_none 1000 0 3600000 0 0)
+           [mkcanonical HOP_COUNT_BLOCK 2 0 CrcNo (HopCount 32 0); mkcanonical 1 1 0 CrcNo (Data [x78])].
+Definition pad200 (l : list byte) : list byte := l ++ repeat_byte x2e (200 - length l).
+Definition crc_answer (k : N) : list byte := pad200 (hexify (fst (to_cbor (set_crc crc_bundle k)))).
 Definition crc_row (k : N) (r : list byte) : bool := bytes_eqb r (crc_answer k).
 
 Lemma table_ok :
